@@ -106,6 +106,12 @@ def run(v, tier, seed):
         v.violation({"what": "model and implementation disagree; MapSpec accepts every observed trace", "case": name,
                      "ops": [render(o) for o in ops[:step + 1]], "step": step, "impl": decode_tok(x), "model": decode_tok(y),
                      "disagreeing_cases": len(diffs), "broken_obligation": "correspondence core/C01 (Model/Core.v step, projection: request results + dump)"}, no_input=True)
-    v.cov.update({"evaluations": ncases, "distinct_nontrivial": len(nontrivial), "steps": nsteps, "disagreements": len(diffs),
+    # the same store behind the REST front end (server/axum/mod.rs, Model/Rest.v): random histories of HTTP requests
+    rstats = {}
+    if not v.violations:
+        import restcheck
+        rstats = restcheck.check_random(v, work, seed, 40 if tier == "quick" else 600)
+    v.cov.update({"evaluations": ncases, "distinct_nontrivial": len(nontrivial), "steps": nsteps, "disagreements": len(diffs), **rstats,
+                  "rest_rule": "random histories of REST requests (set, get, pget, delete, pdelete, ls, export, import, publish, writes to $SYS keys) on a real in-process server: HTTP status and body of every answer compared with Model/Rest.v; oracle: get / pget answer from a key/value reference fed with the accepted writes",
                   "rule": f"corpus + every sequence of <= {bound} writes over a {len(alpha)}-op alphabet (each followed by a full dump, then {len(READ_TAIL)} reads) + {nrand} seeded random histories of 10-120 requests (3-level keys with empty/unicode segments, wildcards, $SYS keys, imports); non-trivial = contains an accepted and a rejected write",
                   "samples": samples, "op_histogram": hist, "accepted_writes": acc, "rejected_writes": rej, "exhaustive_sequences": n_exh})
